@@ -8,6 +8,7 @@ Inductive rmop :=
   | RMake (guard:string)                        (* `o.refMap = ...`, with the condition of the innermost `if` around it *)
   | RSet (key value:string) (in_closure:bool)   (* `o.refMap[key] = value`; in_closure: inside a func literal *)
   | RDeferDone (arg:string)                     (* `defer setDefined(arg)` *)
+  | RDoneNow (arg:string)                       (* `setDefined(arg)` as a statement of its own (since c310a5e: the allOf loop) *)
   | RGet (key:string)                           (* `o.refMap[key]` read *)
   | RNilTest (op:string).                       (* `o.refMap == nil` / `!= nil` *)
 
@@ -16,6 +17,7 @@ Definition rmop_eqb (a b:rmop) : bool :=
   | RMake g, RMake g' => String.eqb g g'
   | RSet k v c, RSet k' v' c' => String.eqb k k' && String.eqb v v' && Bool.eqb c c'
   | RDeferDone x, RDeferDone x' => String.eqb x x'
+  | RDoneNow x, RDoneNow x' => String.eqb x x'
   | RGet k, RGet k' => String.eqb k k'
   | RNilTest o, RNilTest o' => String.eqb o o'
   | _, _ => false
@@ -25,13 +27,14 @@ Definition rmop_eqb (a b:rmop) : bool :=
 (* the map is created only where it does not exist yet: never reset while a load is in progress *)
 Definition made_only_when_nil (ops:list (string * rmop)) : bool :=
   forallb (fun o => match snd o with RMake g => String.eqb g "o.refMap == nil" | _ => true end) ops.
-(* every in-progress mark `refMap[k] = false` of a function is followed, in that function, by `defer setDefined(k)` *)
+(* every in-progress mark `refMap[k] = false` of a function is followed, in that function, by `defer setDefined(k)` or by
+   `setDefined(k)` *)
 Fixpoint marks_have_done (ops:list (string * rmop)) : bool :=
   match ops with
   | [] => true
   | (f, RSet k v false) :: t =>
       (negb (String.eqb v "false") ||
-       existsb (fun o => String.eqb (fst o) f && rmop_eqb (snd o) (RDeferDone k)) t) && marks_have_done t
+       existsb (fun o => String.eqb (fst o) f && (rmop_eqb (snd o) (RDeferDone k) || rmop_eqb (snd o) (RDoneNow k))) t) && marks_have_done t
   | _ :: t => marks_have_done t
   end.
 (* nothing but the deferred closure sets an entry to true, nothing sets an entry to false inside a closure *)
